@@ -1,5 +1,5 @@
 """C07 — stop / exit / handled signal loses no completed statement (DESIGN §4 C07)."""
-from qlib import (AnalysisBroken, strip, isnode, walk, is_call, norm_cmp, var_ref, is_null, const_val, short, call_obj,
+from qlib import (peel_not, AnalysisBroken, strip, isnode, walk, is_call, norm_cmp, var_ref, is_null, const_val, short, call_obj,
                   expr_key, field_name, is_this_field, atomic_op)
 from rules.common import (core_and_neg, tnode, other, cpos, npos, branches_on_call, in_subtree, need_some, returns_bool,
                           loops_enclosing, try_stack, has_catch_all, flatten, branches_on_var_null)
@@ -268,7 +268,7 @@ def r4(ctx, facts, cfg):
             if c is None:
                 continue
             nc = norm_cmp(c)
-            cc = strip(c)
+            cc = peel_not(c)
             if nc and nc[0] == "==" and isnode(cc) and cc["k"] == "BinaryOperator":
                 for (x, y) in ((cc["lhs"], cc["rhs"]), (cc["rhs"], cc["lhs"])):
                     if var_ref(x) == sigp and const_val(y) in (2, 15):
